@@ -117,6 +117,36 @@ caller (the loop ends only then) -/
 def writer (sty : Style) (items : List Outbound) (closed : Bool) : Obs :=
   { bytes := childBytes sty items, stdinClosed := closed }
 
+/-! ## Two writers
+
+The child's stdin has TWO writers: the outgoing-stream writer task above, and the stdout reader
+task, which writes one error line per batch it rejects (`_send_error_response`:
+`stdin.send(f"{json.dumps(error)}\n".encode())`).  A `send()` appends its bytes to the pipe as a
+unit; the two tasks interleave at `send()` granularity, in an order chosen by the scheduler. -/
+
+/-- `m` is an interleaving of `a` and `b` (both orders preserved) -/
+inductive Interleaving {α : Type} : List α → List α → List α → Prop where
+  | nil : Interleaving [] [] []
+  | left {a b m : List α} (x : α) : Interleaving a b m → Interleaving (x :: a) b (x :: m)
+  | right {a b m : List α} (y : α) : Interleaving a b m → Interleaving a (y :: b) (y :: m)
+
+/-- executable interleaving: schedule bits, `true` = the next `send()` is the writer task's; what an
+exhausted schedule leaves over is appended (writer first) -/
+def mergeAll {α : Type} : List Bool → List α → List α → List α
+  | _, [], b => b
+  | _, a, [] => a
+  | [], a, b => a ++ b
+  | true :: s, x :: a, b => x :: mergeAll s a b
+  | false :: s, a, y :: b => y :: mergeAll s a b
+
+/-- the reader task's `send()` calls: one complete line per rejected batch; the error object is a
+JSON value serialised by the same `json.dumps` -/
+def rejectionSends (sty : Style) (rejs : List Json) : List (List Nat) := sends sty (rejs.map Outbound.value)
+
+/-- the bytes the child receives when the two tasks' sends are interleaved by `sched` -/
+def childBytes2 (sty : Style) (items : List Outbound) (rejs : List Json) (sched : List Bool) : List Nat :=
+  (mergeAll sched (sends sty items) (rejectionSends sty rejs)).flatten
+
 /-- no raw line break (LF or CR) -/
 def NoBreak (l : List Nat) : Prop := LF ∉ l ∧ CR ∉ l
 
